@@ -170,7 +170,10 @@ type Folder struct {
 	Call func(f *Folder, call *ssa.Call, args []AV) (AV, bool)
 	// Cmp decides a comparison between non-constant values; ok=false means unknown.
 	Cmp func(op token.Token, x, y AV) (res bool, ok bool)
-	// FreshLoad gives the abstract content read through an unknown pointer / global; may be nil.
+	// Lookup decides the abstract result of a map lookup / string index; may be nil.
+	Lookup func(x *ssa.Lookup, m, k AV) (AV, bool)
+	// Global gives the abstract content of a global variable's address; may be nil.
+	Global func(g *ssa.Global) (AV, bool)
 	MaxDepth int
 	MaxSteps int
 	steps    int
@@ -317,6 +320,11 @@ func (f *Folder) Fold(fn *ssa.Function, args []AV) (res []AV, err error) {
 		case *ssa.Function:
 			return x
 		case *ssa.Global:
+			if f.Global != nil {
+				if r, ok := f.Global(x); ok {
+					return r
+				}
+			}
 			return TopV{"global " + x.Name()}
 		}
 		if a, ok := env[v]; ok {
@@ -409,6 +417,23 @@ func (f *Folder) Fold(fn *ssa.Function, args []AV) (res []AV, err error) {
 					}
 				}
 				env[x] = TopV{"index"}
+			case *ssa.MakeInterface:
+				env[x] = get(x.X)
+			case *ssa.ChangeInterface:
+				env[x] = get(x.X)
+			case *ssa.TypeAssert:
+				if x.CommaOk {
+					env[x] = TopV{"comma-ok assert"}
+				} else {
+					env[x] = get(x.X)
+				}
+			case *ssa.Lookup:
+				env[x] = TopV{"lookup"}
+				if f.Lookup != nil {
+					if r, ok := f.Lookup(x, get(x.X), get(x.Index)); ok {
+						env[x] = r
+					}
+				}
 			case *ssa.Convert:
 				env[x] = get(x.X)
 			case *ssa.ChangeType:
@@ -611,4 +636,43 @@ func Deref(v AV) AV {
 		return getPath(p.C.V, p.Path)
 	}
 	return TopV{"deref"}
+}
+
+// StructAV builds an abstract struct value of type t from named fields (others are zero).
+func StructAV(t types.Type, fields map[string]AV) AV {
+	st, ok := t.Underlying().(*types.Struct)
+	if !ok {
+		return TopV{"not a struct"}
+	}
+	a := Agg{}
+	for i := 0; i < st.NumFields(); i++ {
+		if v, ok := fields[st.Field(i).Name()]; ok {
+			a.E = append(a.E, v)
+		} else {
+			a.E = append(a.E, ZeroOf(st.Field(i).Type()))
+		}
+	}
+	return a
+}
+
+// FieldAV reads a named field (dotted path allowed) of an abstract struct value of type t.
+func FieldAV(v AV, t types.Type, path ...string) AV {
+	for _, name := range path {
+		st, ok := t.Underlying().(*types.Struct)
+		a, ok2 := v.(Agg)
+		if !ok || !ok2 {
+			return TopV{"field " + name}
+		}
+		found := false
+		for i := 0; i < st.NumFields(); i++ {
+			if st.Field(i).Name() == name && i < len(a.E) {
+				v, t, found = a.E[i], st.Field(i).Type(), true
+				break
+			}
+		}
+		if !found {
+			return TopV{"no field " + name}
+		}
+	}
+	return v
 }
